@@ -19,9 +19,10 @@ LEVEL_TEXT = (
     "accepted fixpoint over the symbol set in preprocess is insensitive only if complete: every 'something "
     "changed' report inside a 'while <flag>' loop over that set (a smaller value stored, a helper returning "
     "whether it changed anything) must feed the loop flag; (R2) the seeded source draws only from a private "
-    "random.Random(seed); (R3) no call of a process-global RNG, clock, uuid/urandom, and no id()/hash() in a "
-    "value position outside the allow-listed timing/logging sites; (R4) no function writes module-level or class-"
-    "level state (caches, counters; a container created in a class body and modified through self unless every "
+    "random.Random(seed); (R3) no call of a process-global RNG, clock, uuid/urandom, no id()/hash() in a value "
+    "position outside the allow-listed timing/logging sites, and no enumeration of type.__subclasses__() (class-"
+    "definition order is the order modules were imported in); (R4) no function writes module-level or class-level"
+    " state (caches, counters; a container created in a class body and modified through self unless every "
     "instance's constructor replaces it) and no parameter default is a shared stateful object, (R5) no method of "
     "a population initializer other than its constructor stores into the initializer, into a container it was "
     "built around (the caller's list of programs) or into an element of one (may-mutate analysis with self as "
